@@ -428,6 +428,19 @@ class PoolApiStream(Stream):
                 l, u = cur["incl"]
                 if not (l <= r <= u):
                     out.append({"what": f"bounds: step {i}: request {r} W outside the system inclusion bounds [{l}, {u}]", "finding": None})
+            # what the pools are told: every pool of a group that received a report in this step is told the
+            # same target, and the request is the regular group's target plus the operating-point group's
+            # (a report delivered to the wrong group's pool shows here)
+            told = {False: set(), True: set()}
+            for k, _, tgt, _b in x["reports"]:
+                told[case["pools"][k]["op"]].add(tgt)
+            if any(len(v) > 1 for v in told.values()):
+                out.append({"what": f"reports: step {i}: pools of one group are told different targets {x['reports']}", "finding": None})
+            elif told[False] and told[True]:
+                a, b = next(iter(told[False])), next(iter(told[True]))
+                if (a or 0) + (b or 0) != r:
+                    out.append({"what": f"reports: step {i}: request {r} W but the regular pools are told target {a} W and the "
+                                        f"operating-point pools {b} W", "finding": None})
             # single regular pool, no operating-point pool: the documented contract in its simplest form,
             # judged with the same independent `closest admissible value` oracle as the history stream
             if len(case["pools"]) == 1 and not case["pools"][0]["op"] and cur is not None and M.wf_sys(cur) and p not in (None,) + REJECT:
